@@ -305,7 +305,7 @@ theorem mutateValue_frozenF (hX : NoClassDnc X) (hM : MakeSafe n₀ (fun _ => Fa
   subst hv4
   unfold mvAttrTransforms
   refine SafeF.ite (fun _ => ?_) (fun _ => SafeF.pure rfl)
-  simp only [if_true, hip]
+  simp only [if_true, hip, Bool.true_and, beq_self_eq_true]
   refine SafeF.bind (SafeF.pure (Q := fun r => r = Ref.obj i) rfl) (fun v hv => ?_)
   subst hv
   unfold guarded
@@ -590,7 +590,8 @@ theorem mutateValue_cow (hX : NoClassDnc X) (hM : MakeSafe n₀ W X) (p : MV)
     · exact ⟨hr3.1, h3'⟩
     · exact ⟨fun _ => h.writable, Or.inr h⟩
   refine h4.bind (fun v4 hv4 => ?_)
-  refine (mvAttrTransforms_safe X hX hM p v4 r3.2 hv4.1).mono (fun r hr => ?_)
+  refine (mvAttrTransforms_safe X hX hM p v4 (r3.2 && v4 == r3.1)
+    (fun hs => hv4.1 (by simp only [Bool.and_eq_true] at hs; exact hs.1))).mono (fun r hr => ?_)
   rcases hr with rfl | h
   · exact hv4.2
   · exact Or.inr h
